@@ -6,6 +6,7 @@
  * MODE 1: NF files with symbolic priorities (s64) -> output is a permutation,
  *         ascending, ties keep their input order (stable).
  * MODE 2: every flag keyword maps to exactly its SQFS_BLK_* bit.
+ * MODE 3: decode_filename against an independent unquoting specification.
  */
 #include "vp.h"
 #include <string.h>
@@ -50,6 +51,53 @@ void harness(void)
 	}
 	VP_ASSERT(n == NF && it == NULL, "every file is in the output exactly once");
 	VP_REACH("sorted");
+}
+#elif MODE == 3
+/*
+ * decode_filename(): the file name of a sort file line, plain or in double
+ * quotes with \\ and \" escapes, for EVERY buffer content of NB bytes.
+ * Independent specification: unquote, then canonicalize; anything else is
+ * rejected.  (A quoted name that is not terminated after unquoting keeps a
+ * tail of the raw text and silently never matches any file.)
+ */
+#ifndef NB
+#define NB 5
+#endif
+void harness(void)
+{
+	char in[NB + 1], buf[NB + 1], spec[NB + 1];
+	size_t i, o = 0;
+	int ret, ok = 1, quoted;
+
+	for (i = 0; i < NB; ++i) in[i] = (char)ND_U8();
+	in[NB] = 0;
+	memcpy(buf, in, sizeof(buf));
+	quoted = (in[0] == '"');
+	if (quoted) {
+		int closed = 0;
+		for (i = 1; i < NB + 1; ++i) {
+			if (closed || !ok) break;
+			if (in[i] == 0) { ok = 0; }
+			else if (in[i] == '"') { closed = 1; if (in[i + 1] != 0) ok = 0; }
+			else if (in[i] == '\\') { if (in[i + 1] == '\\' || in[i + 1] == '"') { spec[o++] = in[i + 1]; ++i; } else ok = 0; }
+			else spec[o++] = in[i];
+		}
+		if (!closed) ok = 0;
+		spec[o] = 0;
+	} else {
+		memcpy(spec, in, sizeof(spec));
+	}
+	if (ok && canonicalize_name(spec) != 0) ok = 0;
+
+	ret = decode_filename("sort", 1, buf);
+
+	VP_ASSERT((ret == 0) == ok, "C17: a sort file name is accepted iff it is a plain or correctly quoted, canonicalisable path");
+	if (ret == 0) {
+		VP_ASSERT(strcmp(buf, spec) == 0, "C17: the decoded name is exactly the unquoted, canonical path (so that it can match a file)");
+		if (quoted) VP_REACH("quoted"); else VP_REACH("plain");
+	} else {
+		VP_REACH("rejected");
+	}
 }
 #else
 static struct { split_line_t s; char *args[6]; } SPL;
